@@ -416,7 +416,10 @@ func scalarToHeader(a interface{}) (hdr *storage.Header, newAlloc bool) {
 	var raw []byte
 	switch at := a.(type) {
 	case Memory:
-		raw = storage.FromMemory(at.Uintptr(), at.MemSize())
+		// a copy, not an alias: some scalar kernels compute in place in the scalar's header, and a
+		// scalar tensor passed as operand must not be overwritten by that
+		mem := storage.FromMemory(at.Uintptr(), at.MemSize())
+		raw = append(make([]byte, 0, len(mem)), mem...)
 	default:
 		raw = allocScalar(a)
 		newAlloc = true
